@@ -12,6 +12,7 @@ from collections.abc import Mapping
 from collections.abc import MutableMapping
 from collections.abc import Sequence
 import email
+import email.parser
 import io
 import re
 import textwrap
@@ -450,7 +451,8 @@ def get_paragraph_data(text, remove_pgp_signature=False):
         text = unsign.remove_signature(text)
 
     try:
-        mls = email.message_from_string(text)
+        # parse headers only: the body is never parsed as MIME parts
+        mls = email.parser.HeaderParser().parsestr(text)
     except UnicodeEncodeError:
         t = text.encode('utf-8')
         mls = email.message_from_string(t)
